@@ -27,7 +27,7 @@ def _digests(pid, seed, indices):
 def determinism(n):
     bad = 0
     ctx = mp.get_context("fork")
-    for pid in PROPS:
+    for pid in ([p for p in PROPS if p in os.environ.get("VERIF_ONLY", "").split(",")] or PROPS):
         idx = list(range(n))
         # A: 16 workers, chunks of 10
         a = {}
